@@ -7,6 +7,9 @@ import sys
 import time
 
 from . import findings, registry, runner, static_checks
+from .core import Engine
+
+OBL_BUDGET_S = Engine.OBL_TIMEOUT_MS // 1000
 
 ROOT = runner.ROOT
 
@@ -110,6 +113,7 @@ def run_property(args):
     backends = {}
     paths = queries = 0
     solver_s = 0.0
+    slowest = (0.0, "", None)
     functions = {}
     covers_by_h = {}
     feas_by_h = {}
@@ -124,6 +128,8 @@ def run_property(args):
         paths += r["paths"]
         queries += r["stats"].get("queries", 0)
         solver_s += r["stats"].get("solver_s", 0.0)
+        if r["stats"].get("max_obl_s", 0.0) > slowest[0]:
+            slowest = (r["stats"]["max_obl_s"], f"{r.get('harness', '?')} {r['stats'].get('max_obl_name')}", r.get("params"))
         functions.update(r["functions"])
         covers_by_h.setdefault(hname, set()).update(r["covers"])
         feas_by_h[hname] = feas_by_h.get(hname, 0) + r["feasible_end"]
@@ -236,7 +242,10 @@ def run_property(args):
     wall = time.time() - t0
     if code == 0:
         lines.insert(0, f"HELD property={prop} obligations={obligations} discharged={discharged} bounded={bounded_ok}/{bounded} "
-                        f"paths={paths} queries={queries} solver_s={solver_s:.1f} wall_s={wall:.1f}")
+                        f"paths={paths} queries={queries} solver_s={solver_s:.1f} wall_s={wall:.1f} "
+                        f"slowest_obligation_s={slowest[0]:.1f}")
+        if slowest[0] > 5:
+            lines.append(f"    note: slowest obligation {slowest[0]:.1f}s of {OBL_BUDGET_S}s budget: {slowest[1]} {slowest[2]}")
     for ln in lines:
         print(ln)
     # ---------------- evidence
